@@ -40,6 +40,8 @@ class P(C07):
             N = rnd.choice([1, 2, 2, 3, 4])
             L = rnd.choice([1, 3, 8, 20]) if tier == "quick" else rnd.choice([1, 5, 20, 60, 150, 300])
             hist = [rnd.choice(kinds) for _ in range(L)]
+            if h == 0:
+                hist = list(kinds); rnd.shuffle(hist); N = 4      # every kind at least once per run
             if h % 3 == 0:
                 hist.insert(rnd.randrange(len(hist) + 1), "rst_before_accept")
             try:
